@@ -2,7 +2,7 @@
 guarantees (failure reporting on daemon departure, one ack slot per ip:port, counting, stop/cleanup)."""
 import types
 
-from common import done, load
+from common import done, load, probe_exception
 
 
 def mk(cls):
@@ -116,7 +116,7 @@ def main(rec):
         try:
             v = f()
         except Exception as ex:  # noqa
-            v = f"{f.__name__} raised {type(ex).__name__}: {ex}"
+            v = probe_exception(f, ex)
         if v:
             done(True, v)
     done(False, "probes pass for " + rec.get("obligation", ""))
